@@ -545,9 +545,44 @@ func (p *Program) resolveRenames() {
 		}
 	}
 	for sig, fs := range movedBySig {
-		if olds := stillMissing[sig]; len(fs) == 1 && len(olds) == 1 {
+		olds := stillMissing[sig]
+		if len(fs) == 1 && len(olds) == 1 {
 			p.renamed[fs[0]] = olds[0]
 			p.RenameNotes = append(p.RenameNotes, fmt.Sprintf("function %s of the reference tree is gone; %s.%s (%s) in a package the reference tree does not have has the same signature and is analysed in its place", olds[0], fs[0].Pkg.Pkg.Name(), fs[0].Name(), p.FuncPos(fs[0])))
+			continue
+		}
+		// several helpers of one signature moved together (trimOWS and asciiToLower are both func(string) string): a new
+		// name that is the old one without its prefix, up to case (TrimOWS, ToLower, EqualFold, lower), decides - if that
+		// pairs every one of them exactly once
+		if len(fs) == len(olds) && len(fs) > 1 {
+			pair := map[*ssa.Function]string{}
+			used := map[string]bool{}
+			ok := true
+			for _, f := range fs {
+				var cands []string
+				for _, o := range olds {
+					on := o
+					if i := strings.LastIndex(on, "."); i >= 0 {
+						on = on[i+1:]
+					}
+					if strings.HasSuffix(strings.ToLower(on), strings.ToLower(f.Name())) {
+						cands = append(cands, o)
+					}
+				}
+				// the longest old name that still ends in the new one is not needed: exactly one candidate is
+				if len(cands) != 1 || used[cands[0]] {
+					ok = false
+					break
+				}
+				pair[f] = cands[0]
+				used[cands[0]] = true
+			}
+			if ok {
+				for f, o := range pair {
+					p.renamed[f] = o
+					p.RenameNotes = append(p.RenameNotes, fmt.Sprintf("function %s of the reference tree is gone; %s.%s (%s) in a package the reference tree does not have has the same signature and the same name without its prefix, and is analysed in its place", o, f.Pkg.Pkg.Name(), f.Name(), p.FuncPos(f)))
+				}
+			}
 		}
 	}
 	sort.Strings(p.RenameNotes)
